@@ -12,6 +12,7 @@
   walks down to m without jumping below it.
 -/
 import VK.Props.C01Veto
+import VK.Props.C01Composite
 import VK.Lemmas.Fill
 
 namespace VK
